@@ -547,12 +547,10 @@ def get_bs_cached(cols, basis_dir=None, legendre_orders=[0, 2],
     # cached basis
     global _basis, _los, _pas, _radial_step, _clip
 
-    # legendre_orders string
-    los = ''.join(map(str, legendre_orders))
-    # convert to % of pi
-    proj_angles_fractpi = np.array(proj_angles)*100/np.pi
-    # projection angles string
-    pas = ''.join(map(str, proj_angles_fractpi.astype(int)))
+    # legendre_orders string (with separators, so that [0, 24] != [0, 2, 4])
+    los = ','.join(map(str, legendre_orders))
+    # projection angles string (exact values, so that close angles differ)
+    pas = ','.join(repr(float(a)) for a in proj_angles)
 
     if _basis is not None:
         # check basis array sizes, warning may not be unique
